@@ -156,7 +156,7 @@ func generateDAG(t *simsync.Tape, cas *fakeCAS, allowBroken bool, logf func(stri
 		storeMode := "ok"
 		if brokenBudget > 0 && t.Bool(1, 3) {
 			brokenBudget--
-			kind := t.Choice(9)
+			kind := t.Choice(10)
 			anyName := func() string {
 				var all []string
 				for _, s := range d.dirs {
@@ -219,6 +219,12 @@ func generateDAG(t *simsync.Tape, cas *fakeCAS, allowBroken bool, logf func(stri
 				// Make the message unique, so that no well-formed
 				// directory or file shares its digest.
 				msg.Symlinks = append(msg.Symlinks, &remoteexecution.SymlinkNode{Name: fmt.Sprintf("zz-unique-%d", i), Target: "x"})
+			case 9:
+				// A reference whose size is zero but whose hash is not
+				// that of the empty blob: no such object can exist.
+				storeMode = "zero-size"
+				d.broken = "blob zero-size reference with a non-empty hash"
+				msg.Symlinks = append(msg.Symlinks, &remoteexecution.SymlinkNode{Name: fmt.Sprintf("zz-unique-%d", i), Target: "x"})
 			}
 		}
 		data := mustMarshal(msg)
@@ -227,8 +233,11 @@ func generateDAG(t *simsync.Tape, cas *fakeCAS, allowBroken bool, logf func(stri
 			data = []byte(fmt.Sprintf("\xff\xff\xffnot a Directory message %d", i))
 		}
 		d.digest = digestOf(c17fn, data)
+		if storeMode == "zero-size" {
+			d.digest = digest.MustNewDigest("w10", remoteexecution.DigestFunction_SHA256, d.digest.GetHashString(), 0)
+		}
 		switch storeMode {
-		case "missing":
+		case "missing", "zero-size":
 		case "corrupt":
 			bad := append([]byte(nil), data...)
 			if len(bad) == 0 {
